@@ -1348,8 +1348,11 @@ class ProcessPoolExecutor(Executor):
         # objects that use file descriptors.
         self._executor_manager_thread = None
         self._executor_manager_thread_wakeup = None
-        self._call_queue = None
-        self._result_queue = None
-        self._processes_management_lock = None
+        if wait or executor_manager_thread is None:
+            # When not waiting, the manager thread can still have to respawn
+            # workers to drain the pending jobs: it needs these to do so.
+            self._call_queue = None
+            self._result_queue = None
+            self._processes_management_lock = None
 
     shutdown.__doc__ = Executor.shutdown.__doc__
